@@ -1,4 +1,5 @@
-SPECIFICATION Spec
+INIT CovInit
+NEXT Next
 CONSTANTS
   Quorum <- Q2
   Calls <- CallsA
@@ -11,7 +12,8 @@ CONSTANTS
   MaxClose = 0
   MaxDeliveryFail = 0
   Unbuffered = FALSE
-  RecordH = "off"
+  Script <- NoScript
+  RecordH = "last"
 VIEW View
 INVARIANTS TypeOK BufferAccounting BoxHistory NoCrossTalk BlamesSender FatalResults NoLostWakeup NotifyConsistent
-PROPERTIES ExactRouting DupAbsorbed ConflictPoisons CancelLosesNothing FailureLatched
+PROPERTIES Cov ExactRouting DupAbsorbed ConflictPoisons CancelLosesNothing FailureLatched
